@@ -314,3 +314,35 @@ Example C01_blockpage_premises_satisfiable :
             Rewrites.isort c ex_query_other = Some res /\
     r_filtered res = true /\ r_reason res = FilteredSafeBrowsing.
 Proof. exact ex_blockpage_premises. Qed.
+
+(** * Rule lists switched on and off while the server runs (round 3)
+
+    "an enabled blocking rule": enabled NOW.  Model/PipelineLists.v: the
+    block engine is built from the user rules and the block lists whose flag
+    is on after the last change. *)
+From AGH Require Import Model.PipelineLists Proofs.PipelineLists.
+
+(** set_url enabled:true for a block list puts its rules in force, whatever
+    happened before (disabled and re-enabled any number of times). *)
+Theorem C01_enabled_block_list_in_force :
+  forall st u f,
+  In f (ls_block st) -> fl_url f = u ->
+  incl (fl_rules f) (block_rules (apply_change st (LSet false u true))).
+Proof. exact block_list_enabled_in_force. Qed.
+Print Assumptions C01_enabled_block_list_in_force.
+
+(** Disabling and enabling a list that was enabled restores the lists. *)
+Theorem C01_disable_enable_restores :
+  forall u ls,
+  (forall f, In f ls -> fl_url f = u -> fl_on f = true) ->
+  set_on u true (set_on u false ls) = ls.
+Proof. exact off_on_restores. Qed.
+Print Assumptions C01_disable_enable_restores.
+
+(** A disabled list's rules are in force only if another enabled list has them. *)
+Theorem C01_disabled_block_list_not_in_force :
+  forall u ls r,
+  In r (active (set_on u false ls)) ->
+  exists f, In f ls /\ fl_url f <> u /\ fl_on f = true /\ In r (fl_rules f).
+Proof. exact switched_off_not_in_force. Qed.
+Print Assumptions C01_disabled_block_list_not_in_force.
